@@ -37,7 +37,7 @@ func New(ctx context.Context, opts ...Option) (*Filesystem, error) {
 	if fs.base != "" {
 		orig := fs.base
 		fs.base = filepath.Clean(orig)
-		if strings.HasPrefix(fs.base, "..") {
+		if fs.base == ".." || strings.HasPrefix(fs.base, ".."+string(filepath.Separator)) {
 			return nil, fmt.Errorf("invalid base path for filesystem: %s", orig)
 		}
 	}
